@@ -321,6 +321,13 @@ def main():
 
         mediator = factory.build_from_config(config, to_camel_case(config.get("Run", "mediator")), "jellyfysh.mediator")
         state["mediator"] = mediator
+        if job.get("prime_counters") is not None:
+            # "at every leg of a run", however long: start with the heap scheduler's lazy-deletion counters just below the C
+            # `unsigned int` range (the state after ~4.3e9 trashed candidates per handler); the wrap-around must be invisible
+            sch_ = getattr(mediator, "_scheduler", None)
+            if hasattr(sch_, "_minimal_valid_counter") and not sch_._minimal_valid_counter:
+                for h_ in mediator._activator.get_event_handlers():
+                    sch_._minimal_valid_counter[h_] = int(job["prime_counters"])
         try:
             mediator.run()
         except EndOfRun:
